@@ -1,4 +1,4 @@
-import RSocketModel.Props.C11
+import RSocketModel.Proofs.C10Lemmas
 /-!
 # C10 — No per-stream state survives a terminated interaction
 `Terminated` is, per interaction: request-response — response or error delivered, cancel processed;
@@ -6,20 +6,6 @@ stream — terminal signal, cancel; channel — *both* directions closed (the li
 semantics, which the suite pins); all — connection lost.
 -/
 namespace RSocketModel.Engine
-
-theorem isActive_finish (st : State) (sid : Nat) :
-    (st.finish sid).isActive sid = false ∧ (st.finish sid).cache.find? (·.1 == sid) = none := by
-  constructor
-  · simp [State.isActive, State.finish]
-  · simp [State.finish, List.find?_eq_none]
-
-theorem isActive_setObj (st : State) (oid : Nat) (s : Stream) (sid : Nat) : (st.setObj oid s).isActive sid = st.isActive sid := rfl
-
-theorem markChannel_both (st : State) (oid : Nat) (s : Stream) (r t : Bool)
-    (hb : ((s.recvComplete || r) && (s.sentComplete || t)) = true) :
-    (markChannel st oid s r t).isActive s.sid = false ∧ (markChannel st oid s r t).cache.find? (·.1 == s.sid) = none := by
-  simp only [markChannel, hb, if_true]
-  exact isActive_finish _ _
 
 /-- **channels**: in every reachable state, a registered handler never has both directions
 closed — the step that closes the second direction unregisters the stream and drops its partial
